@@ -1,5 +1,6 @@
 import CssVerif.Lemmas.Media
 import CssVerif.Lemmas.MediaSetType
+import CssVerif.Lemmas.MediaSimL
 /-!
 # C17 — media lists are canonical ordered sets; media queries survive intact
 
@@ -236,6 +237,47 @@ the parenthesis by the type) -/
 theorem fixed_setter_leading_expression :
     ((QAst.untyped ⟨tIdent wColor, none⟩ []).toMQ.setMediaType false wTv).1.toks
       = [typeTok wTv, setterAndTok, openTok, tIdent wColor, closeTok] := by decide
+
+/-! ## T17.6 — the generic engine of `prodparser.py` on the captured grammars IS the derived automaton
+
+`ProdEngine.engineQ` / `engineL` = the model of `ProdParser.parse` (`Choice.nextProd`, `Sequence.nextProd`, the main
+loop, the end-of-input loop, `savedTokens`, `tokenizer.push`) run on the production trees that the translator
+captures from the live `MediaQuery` / `MediaList` objects on every run (`Gen/C17Grammar.lean`). `parseQ` / `parseL`
+= the automata all theorems above are about. Token domain `Dom` = assumption A1 (a token with value `( ) : ,` has
+type CHAR). A change of a captured tree breaks `MediaSim.gq_alone` / `gq_partof` / `ml_captured` (`rfl`) and with
+them these theorems. -/
+
+/-- stand-alone query: for EVERY token list the engine on the captured tree gives the result of `parseQ` -/
+theorem engine_is_query_automaton (toks : List Tok) (hd : ∀ t ∈ toks, MediaSim.Dom t) :
+    ProdEngine.engineQ Gen.C17Grammar.mediaQueryAlone toks = parseQ {} toks :=
+  MediaSim.engineQ_eq_parseQ toks hd
+
+/-- list: for EVERY token list, from text or from a token list, the engine on the captured `MediaList` tree with the
+nested parser on the captured `_partof` query tree and both hand-back channels gives the result of `parseL` -/
+theorem engine_is_list_automaton (ft : Bool) (toks : List Tok) (hd : ∀ t ∈ toks, MediaSim.Dom t) :
+    ProdEngine.engineL Gen.C17Grammar.mediaList Gen.C17Grammar.mediaQueryPartof ft toks = parseL false ft {} toks :=
+  MediaSim.engineL_eq_parseL ft toks hd
+
+/-- so the property theorems hold for the engine itself, e.g. T17.4: a query accepted by the engine keeps every
+token of the text, in order -/
+theorem engine_query_keeps_every_token (toks : List Tok) (hd : ∀ t ∈ toks, MediaSim.Dom t) (q : MQ)
+    (h : ProdEngine.engineQ Gen.C17Grammar.mediaQueryAlone toks = .ok q) : q.toks = toks.filter notS := by
+  rw [engine_is_query_automaton toks hd] at h
+  exact query_keeps_every_token toks q h
+
+/-- … and T17.1 for the list the engine builds: filtered, it is a canonical ordered set -/
+theorem engine_list_canonical (ft : Bool) (toks : List Tok) (items : List LItem)
+    (_h : ProdEngine.engineL Gen.C17Grammar.mediaList Gen.C17Grammar.mediaQueryPartof ft toks = .ok items) :
+    CanonV (view (canon items)) := canon_canonV items
+
+/-- the token domain is inhabited by real inputs and the engine accepts them: `tv and (color), print` -/
+example :
+    let toks := [tIdent wTv, tSpace, tIdent wAnd, tSpace, tChar cOpen, tIdent wColor, tChar cClose, tChar cComma,
+      tSpace, tIdent wPrint]
+    (∀ t ∈ toks, MediaSim.Dom t) ∧
+    ∃ items, ProdEngine.engineL Gen.C17Grammar.mediaList Gen.C17Grammar.mediaQueryPartof true toks = .ok items ∧
+      items.length = 2 := by
+  refine ⟨by decide, _, rfl, rfl⟩
 
 /-! ## Former known findings, now repaired in the repository (regression witnesses) -/
 
